@@ -57,6 +57,8 @@ def carriers_for(vals, rng, want_all=False):
             if n == 1: out.append('scalar:' + dt)
             if np.dtype(dt).itemsize < 8: out.append(('listnp:' if n % 2 else 'tuplenp:') + dt)
     out += ['list', 'tuple', 'list_str', 'arr_str']
+    if n == 1: out.append('decimal')                      # (decimal.Decimal scalar holding exactly the value)
+    if n >= 2 and not all(isinstance(v, int) for v in vals) and any(float(v) == int(v) for v in vals): out.append('arr_obj')   # (an object ndarray mixing Python ints and floats)
     if n == 1: out.append('npstr')
     if n >= 2 and n % 2 == 0: out += ['nested', 'arr2d']
     return out
@@ -74,6 +76,8 @@ def build_carrier(name, vals):
     if name == 'list_str': return [dec_str(v) for v in vals]
     if name == 'arr_str': return np.array([dec_str(v) for v in vals])
     if name == 'npstr': return np.str_(dec_str(vals[0]))
+    if name == 'decimal': return Decimal(vals[0])
+    if name == 'arr_obj': return np.array([int(v) if float(v) == int(v) else float(v) for v in vals], dtype=object)
     if name.startswith('listnp:'): return [np.dtype(name[7:]).type(v) for v in vals]
     if name.startswith('tuplenp:'): return tuple(np.dtype(name[8:]).type(v) for v in vals)
     if name == 'nested': return [list(vals[:len(vals)//2]), list(vals[len(vals)//2:])]
@@ -91,7 +95,7 @@ def carrier_model_arr(name, vals):
     if name in ('list_str', 'str', 'arr_str', 'npstr'):
         # str2num: float(x) if '.' in x or n_frac > 0 else int(x) -> decided by caller via [str_is_float]
         raise ValueError('string carriers are resolved by the caller')
-    if name.startswith('arr:float') or name.startswith('scalar:float') or name.startswith('listnp:float') or name.startswith('tuplenp:float') or name == 'pyfloat' or not all_int:
+    if name.startswith('arr:float') or name.startswith('scalar:float') or name.startswith('listnp:float') or name.startswith('tuplenp:float') or name == 'pyfloat' or name in ('decimal', 'arr_obj') or not all_int:
         return ('f', [float(v) for v in vals])
     return ('i', [int(v) for v in vals])
 
@@ -317,7 +321,7 @@ def check_store_cases(cases, res, stratum, pid, huge=False, keep_array=False):
 def case_shape(c):
     n = len(c['vals']); name = c['carrier']
     if c['route'] == 'setitem': return (n,)
-    if name in ('pyint', 'pyfloat', 'str', 'npstr') or name.startswith('scalar:'): return ()
+    if name in ('pyint', 'pyfloat', 'str', 'npstr', 'decimal') or name.startswith('scalar:'): return ()
     if name in ('nested', 'arr2d'): return (2, n // 2)
     return (n,)
 
